@@ -524,6 +524,9 @@ def check_property(prop, tier="quick", seed=0, jobs=None, write_baseline=False, 
     print(f"[{prop}] tier={tier} configs={len(results)} paths={paths} obligations={n_ob} discharged={n_dis} "
           f"undecided={len(undecided)} failures={len(failures)} violations={len(real_viol)} known={len(known_lines)} "
           f"native_runs={native['runs']} wall={wall:.1f}s exit={code}")
+    if verbose:
+        for r in sorted(results, key=lambda r: -r.get("wall_s", 0))[:6]:
+            print(f"  SLOWEST {r.get('wall_s')}s solver={r.get('solver_time_s')} paths={r.get('paths')} obl={r.get('obligations')} {r['contract']} {cfg_id(r['cfg'])}"[:260])
     if undecided and verbose or (code == 2):
         for u in undecided[:10]:
             print("  UNDECIDED", json.dumps(u, default=str)[:300])
